@@ -19,6 +19,19 @@ position of the container shapes.  Every operator is taken through the SEQUENCES
 blocks - .I, .T.I, .I.T, .I.I, .T.I.T: class, container, structures, block-by-block skeleton (the same steps on every
 block alone) and the DENSE MATRIX of the result (evaluated from its structure, by basis vectors where its action is
 exact, and by its own as_matrix()) against NumPy transposes / numpy.linalg.inv of the blocks' matrices, stacked.
+MISMATCH cases observe CONSTRUCTION and LATER USE separately (observe / later_use): the clause is "refused AT CONSTRUCTION", so
+an operator that is built and only complains later (out_structure(), mv, as_matrix, reduce, .T are each tried and recorded)
+is an oracle failure carrying the concrete case - never a harness crash.
+DTYPE stream (kind 'dtype', implementation-side only - the model has no dtype arithmetic): blocks whose matrix / parameter
+dtype differs from the dtype of their data (float16 / float32 / complex64, and under jax.enable_x64 float64 / complex128:
+every ordered pair (data, matrix), e.g. real data -> complex output, float32 -> float64, complex64 data x float64 matrix ->
+complex128), mixed per block, as dense / user-defined (generic as_matrix) / composition / diagonal / scalar / identity /
+nested block-row, -column, -diagonal blocks (pytree inputs / outputs, also as the SHARED side), in all nine containers of all
+three block operators: structures with dtypes, as_matrix() VALUES AND DTYPE, the matrix of mv on basis vectors, mv on a
+Gaussian-integer input, .T (against the blocks' own transposes applied alone; refusal when those do not share a structure) and
+reduce(), against the NumPy hstack / vstack / block-diagonal (complex128) of the matrices the blocks were built from and
+numpy.result_type of their dtypes.  Entries have a fractional part that exists only in the block's own precision and non-zero
+imaginary parts: a detour through a narrower dtype anywhere changes every entry.
 Model: Model/Algebra.v (mk_block, structs, transpose, reduce, block rules), Model/Denote.v (denote of
 Block terms), Model/BlockMat.v (binv, steps, hstack/vstack/block_diag of the blocks' matrices), evaluated by
 vm_compute on the encoded blocks (harness/algebra.py); the matrices of the sequence results come from Model/Inverse.v
@@ -79,6 +92,10 @@ LET.update({
     'BD1t': {'k': 'bdiagop', 'blocks': {'tuple': ['A22']}},
     'BC1d': {'k': 'col', 'blocks': {'dict': {'a': 'A22'}}},
     'BR1d': {'k': 'row', 'blocks': {'dict': {'a': 'B22'}}},
+    # arity ONE with EQUAL containers on both sides of a product (the rules fire: the result must keep the container)
+    'BR1l': {'k': 'row', 'blocks': ['A22']}, 'BD1l': {'k': 'bdiagop', 'blocks': ['B22']}, 'BC1l': {'k': 'col', 'blocks': ['S22']},
+    'BR1t': {'k': 'row', 'blocks': {'tuple': ['S22']}}, 'BC1t': {'k': 'col', 'blocks': {'tuple': ['B22']}},
+    'BD1d': {'k': 'bdiagop', 'blocks': {'dict': {'a': 'S22'}}},
     'BDqw': {'k': 'bdiagop', 'blocks': ['Q1', 'W']},
     'BRqs': {'k': 'row', 'blocks': ['Q2', 'Hs']},
     'BCqs': {'k': 'col', 'blocks': ['Q3', 'W']},
@@ -506,6 +523,358 @@ def strip(o):
     return o
 
 
+def _exc(e) -> str:
+    return f'{type(e).__name__}: {str(e)[:160]}'
+
+
+def observe(thunk, enc, want_matrix=True):
+    """algebra.observe_impl with CONSTRUCTION kept apart from LATER USE: an exception of `thunk` itself is the outcome
+    {'err': <class>}; an exception raised afterwards, when the constructed object is asked for its structures / skeleton /
+    action, is reported as {'err': 'Late:<class>', 'late_error': ..., '_op': the object} - never as a harness crash (an
+    object that validates lazily is a reportable observation, with the case as the failing input)."""
+    try:
+        op = thunk()
+    except Exception as e:
+        name = type(e).__name__
+        return {'err': name if name in A.ERRS else f'Other:{name}'}
+    try:
+        return A.observe_impl(lambda: op, enc, want_matrix=want_matrix)
+    except Exception as e:
+        return {'err': f'Late:{type(e).__name__}', '_op': op,
+                'late_error': f'constructed, but its structures / skeleton could not be obtained afterwards: {_exc(e)}'}
+
+
+def later_use(kind, op, blocks, leaves, xseed):
+    """What an object that should have been refused does when it is used: use -> 'raised <error>' / 'returned <what>'."""
+    j = A.J()
+    tm = j['jax'].tree.map
+
+    def matching_input():
+        # an input matching the blocks: row / diagonal - one value per block; column - a value for the first block
+        s = leaves[0].in_structure() if kind == 'col' else tm(lambda b: b.in_structure(), blocks, is_leaf=is_op)
+        return rand_input(s, random.Random(xseed))
+
+    def shape(y):
+        return [[str(np.asarray(l).dtype), list(np.shape(l))] for l in j['jax'].tree.leaves(y)]
+
+    uses = {
+        'out_structure()': lambda: G.key(op.out_structure()),
+        'in_structure()': lambda: G.key(op.in_structure()),
+        'mv(matching input)': lambda: f'a value with leaves {shape(op.mv(matching_input()))}',
+        'reduce()': lambda: type(op.reduce()).__name__,
+        'as_matrix()': lambda: f'a matrix of shape {list(np.shape(op.as_matrix()))}',
+        '.T': lambda: type(op.T).__name__,
+    }
+    out = {}
+    for name, f in uses.items():
+        try:
+            out[name] = f'returned {f()}'
+        except Exception as e:
+            out[name] = f'raised {_exc(e)}'
+    return out
+
+
+# =====================================================================================================================
+# DTYPE stream (implementation-side only: the Coq model is over exact rationals and has no dtype arithmetic).
+# Blocks that CHANGE the dtype of the data - a matrix / parameter wider than the data (real data -> complex output,
+# float16 -> float32, and under jax.enable_x64 float32 -> float64, complex64 -> complex128, complex64 data with a
+# float64 matrix -> complex128) - or narrower than it, mixed per block, in all three block operators and all nine
+# containers.  Values carry a fractional part that exists only in the block's own precision (2^-12 for 32-bit, 2^-30 for
+# 64-bit parameters) and non-zero imaginary parts, so that any cast through a narrower dtype changes every entry.
+# Reference: the NumPy hstack / vstack / block-diagonal (complex128) of the matrices the blocks were BUILT from, and
+# numpy.result_type of the blocks' matrix dtypes.
+DT32 = ['float16', 'float32', 'complex64']
+DT64 = ['float64', 'complex128']
+DT_FRAC = {'float16': 0.0, 'float32': 2.0 ** -12, 'complex64': 2.0 ** -12, 'float64': 2.0 ** -30, 'complex128': 2.0 ** -30}
+DT_EPS = {'float16': 2.0 ** -10, 'float32': 2.0 ** -23, 'complex64': 2.0 ** -23, 'float64': 2.0 ** -52, 'complex128': 2.0 ** -52}
+
+
+def rt(*dts) -> str:
+    return str(np.result_type(*[np.dtype(d) for d in dts]))
+
+
+def dt_values(seed, shape, md) -> np.ndarray:
+    """Deterministic complex128 array, exactly representable in dtype md, no zero component."""
+    r = random.Random(seed)
+    n = int(np.prod(shape))
+
+    def comp():
+        return np.array([r.choice([-3, -2, -1, 1, 2, 3]) + DT_FRAC[md] for _ in range(n)])
+
+    v = comp().astype(np.complex128)
+    if np.dtype(md).kind == 'c':
+        v = v + 1j * comp()
+    return v.reshape(shape)
+
+
+def _leaf_desc(n, dt):
+    return ['leaf', str(dt), [int(n)]]
+
+
+def desc_of(s):
+    """Structure (ShapeDtypeStructs or arrays) -> container kinds, dict keys, leaf dtype NAMES and shapes."""
+    ch = A.tree_children(s)
+    if ch is None:
+        return ['leaf', str(np.dtype(s.dtype)), [int(i) for i in s.shape]]
+    (k, arg), kids = ch
+    return [k, arg if arg is not None else 0, [desc_of(c) for c in kids]]
+
+
+def cont_desc(c, leafmap):
+    """JSON container of block names -> the same container of the blocks' structure descriptions."""
+    if isinstance(c, str):
+        return leafmap[c]
+    if isinstance(c, list):
+        return ['list', 0, [cont_desc(v, leafmap) for v in c]]
+    if 'tuple' in c:
+        return ['tuple', 0, [cont_desc(v, leafmap) for v in c['tuple']]]
+    keys = sorted(c['dict'])
+    return ['dict', keys, [cont_desc(c['dict'][k], leafmap) for k in keys]]
+
+
+def leaf_order(c):
+    """Block names of a JSON container in pytree-leaf order (dict keys sorted)."""
+    if isinstance(c, str):
+        return [c]
+    if isinstance(c, list):
+        return [n for v in c for n in leaf_order(v)]
+    if 'tuple' in c:
+        return [n for v in c['tuple'] for n in leaf_order(v)]
+    return [n for k in sorted(c['dict']) for n in leaf_order(c['dict'][k])]
+
+
+def eval_class():
+    """A user-defined operator with NO declared output structure (jax.eval_shape of mv: the honest dtype), the generic
+    as_matrix and the lazy transpose."""
+    if 'eval' not in _user:
+        import equinox
+
+        j = A.J()
+
+        class MatOperator(j['core'].AbstractLinearOperator):
+            matrix: j['jax'].Array
+            _in: object = equinox.field(static=True)
+
+            def __init__(self, matrix, in_structure):
+                self.matrix = matrix
+                self._in = in_structure
+
+            def mv(self, x):
+                return self.matrix @ x
+
+            def in_structure(self):
+                return self._in
+
+        _user['eval'] = MatOperator
+    return _user['eval']
+
+
+def dt_build(spec):
+    """spec -> (operator, reference matrix complex128, matrix dtype name, input description, output description)."""
+    j = A.J()
+    jax, jnp = j['jax'], j['jnp']
+    k = spec['k']
+
+    def sds(n, dt):
+        return jax.ShapeDtypeStruct((n,), jnp.dtype(dt))
+
+    def arr(v, dt):
+        return jnp.asarray(np.asarray(v).astype(np.dtype(dt)) if np.dtype(dt).kind == 'c' else np.asarray(v).real.astype(np.dtype(dt)))
+
+    if k in ('dense', 'user'):
+        m = dt_values(spec['seed'], (spec['r'], spec['c']), spec['md'])
+        if k == 'dense':
+            op = j['dense'].DenseBlockDiagonalOperator(arr(m, spec['md']), sds(spec['c'], spec['d']), 'ij,j->i')
+        else:
+            op = eval_class()(arr(m, spec['md']), sds(spec['c'], spec['d']))
+        t = rt(spec['d'], spec['md'])
+        return op, m, t, _leaf_desc(spec['c'], spec['d']), _leaf_desc(spec['r'], t)
+    if k == 'comp':
+        d1 = rt(spec['d'], spec['md'])
+        m1 = dt_values(spec['seed'], (spec['m'], spec['c']), spec['md'])
+        m2 = dt_values(spec['seed'] + 1, (spec['r'], spec['m']), 'float16' if np.dtype(spec['md2']).kind != 'c' else 'complex64')
+        m2 = np.round(m2.real) + 1j * np.round(m2.imag)       # integer entries: the product stays exact
+        a = j['dense'].DenseBlockDiagonalOperator(arr(m2, spec['md2']), sds(spec['m'], d1), 'ij,j->i')
+        b = j['dense'].DenseBlockDiagonalOperator(arr(m1, spec['md']), sds(spec['c'], spec['d']), 'ij,j->i')
+        t = rt(d1, spec['md2'])
+        return a @ b, m2 @ m1, t, _leaf_desc(spec['c'], spec['d']), _leaf_desc(spec['r'], t)
+    if k == 'diag':
+        v = dt_values(spec['seed'], (spec['c'],), spec['md'])
+        op = j['diagonal'].DiagonalOperator(arr(v, spec['md']), in_structure=sds(spec['c'], spec['d']))
+        return op, np.diag(v), spec['d'], _leaf_desc(spec['c'], spec['d']), _leaf_desc(spec['c'], spec['d'])
+    if k == 'homoth':
+        v = dt_values(spec['seed'], (1,), spec['md'])[0]
+        op = j['core'].HomothetyOperator(arr(v, spec['md']), sds(spec['c'], spec['d']))
+        return op, v * np.eye(spec['c'], dtype=np.complex128), spec['d'], _leaf_desc(spec['c'], spec['d']), _leaf_desc(spec['c'], spec['d'])
+    if k == 'ident':
+        op = j['core'].IdentityOperator(sds(spec['c'], spec['d']))
+        return op, np.eye(spec['c'], dtype=np.complex128), spec['d'], _leaf_desc(spec['c'], spec['d']), _leaf_desc(spec['c'], spec['d'])
+    if k == 'blk':       # a block operator as a block (pytree input and / or output)
+        parts = [dt_build(p) for p in spec['parts']]
+        names = [f'p{i}' for i in range(len(parts))]
+        cont = {'list': names, 'tuple': {'tuple': names}, 'dict': {'dict': dict(zip(('v', 'u', 'w'), names))}}[spec['cont']]
+        ops = A.container(cont, dict(zip(names, (p[0] for p in parts))))
+        cls = getattr(j['blocks'], KIND[spec['cls']][0])
+        by = dict(zip(names, parts))
+        order = [by[n] for n in leaf_order(cont)]
+        ref = _stack(spec['cls'], [p[1] for p in order])
+        ins = cont_desc(cont, {n: p[3] for n, p in by.items()})
+        outs = cont_desc(cont, {n: p[4] for n, p in by.items()})
+        if spec['cls'] == 'row':
+            outs = order[0][4]
+        if spec['cls'] == 'col':
+            ins = order[0][3]
+        return cls(ops), ref.astype(np.complex128), rt(*[p[2] for p in parts]), ins, outs
+    raise ValueError(spec)
+
+
+def _pairs(dts, t):
+    return [(d, md) for d in dts for md in dts if rt(d, md) == t]
+
+
+def dt_gen_to(rng, dts, r, t, leaf=False):
+    """A block spec with the single-leaf OUTPUT (r,) of dtype t (any input)."""
+    k = rng.choice(['dense', 'dense', 'user'] if leaf else ['dense', 'dense', 'user', 'comp', 'diag', 'homoth', 'ident', 'blk'])
+    seed = rng.randrange(10 ** 6)
+    if k in ('dense', 'user'):
+        d, md = rng.choice(_pairs(dts, t))
+        return {'k': k, 'd': d, 'md': md, 'r': r, 'c': rng.randint(1, 3), 'seed': seed}
+    if k == 'comp':
+        d1, md2 = rng.choice(_pairs(dts, t))
+        d, md = rng.choice(_pairs(dts, d1))
+        return {'k': k, 'd': d, 'md': md, 'md2': md2, 'r': r, 'm': rng.randint(1, 2), 'c': rng.randint(1, 3), 'seed': seed}
+    if k in ('diag', 'homoth'):
+        return {'k': k, 'd': t, 'md': rng.choice([m for m in dts if rt(t, m) == t]), 'c': r, 'seed': seed}
+    if k == 'ident':
+        return {'k': k, 'd': t, 'c': r}
+    return {'k': 'blk', 'cls': 'row', 'cont': rng.choice(['list', 'tuple', 'dict']),
+            'parts': [dt_gen_to(rng, dts, r, t, leaf=True) for _ in range(2)]}
+
+
+def dt_gen_from(rng, dts, c, d, leaf=False):
+    """A block spec with the single-leaf INPUT (c,) of dtype d (any output)."""
+    k = rng.choice(['dense', 'dense', 'user'] if leaf else ['dense', 'dense', 'user', 'comp', 'diag', 'homoth', 'ident', 'blk'])
+    seed = rng.randrange(10 ** 6)
+    if k in ('dense', 'user'):
+        return {'k': k, 'd': d, 'md': rng.choice(dts), 'r': rng.randint(1, 3), 'c': c, 'seed': seed}
+    if k == 'comp':
+        return {'k': k, 'd': d, 'md': rng.choice(dts), 'md2': rng.choice(dts), 'r': rng.randint(1, 3), 'm': rng.randint(1, 2),
+                'c': c, 'seed': seed}
+    if k in ('diag', 'homoth'):
+        return {'k': k, 'd': d, 'md': rng.choice([m for m in dts if rt(d, m) == d]), 'c': c, 'seed': seed}
+    if k == 'ident':
+        return {'k': k, 'd': d, 'c': c}
+    return {'k': 'blk', 'cls': 'col', 'cont': rng.choice(['list', 'tuple', 'dict']),
+            'parts': [dt_gen_from(rng, dts, c, d, leaf=True) for _ in range(2)]}
+
+
+def dt_gen_blocks(rng, dts, kind, arity, fixed=None):
+    """`arity` block specs that a block operator of `kind` accepts; `fixed` = (position, dense/user spec) imposes one
+    block (and with it the shared structure)."""
+    pos, fx = fixed if fixed else (None, None)
+    if kind == 'row':
+        if fx is None and rng.random() < 0.25:
+            # a PYTREE shared output [(r1, t1), (r2, t2)]: every block is a block column / block diagonal of two dense blocks
+            (r1, t1), (r2, t2) = [(rng.randint(1, 2), rng.choice(dts)) for _ in range(2)]
+            cont = rng.choice(['list', 'tuple', 'dict'])
+            out = []
+            for _ in range(arity):
+                if rng.random() < 0.5:
+                    d = rng.choice([x for x in dts if rt(x, t1) == t1 and rt(x, t2) == t2])
+                    c = rng.randint(1, 2)
+                    parts = [{'k': 'dense', 'd': d, 'md': rng.choice([m for m in dts if rt(d, m) == t]), 'r': r, 'c': c,
+                              'seed': rng.randrange(10 ** 6)} for r, t in ((r1, t1), (r2, t2))]
+                    out.append({'k': 'blk', 'cls': 'col', 'cont': cont, 'parts': parts})
+                else:
+                    out.append({'k': 'blk', 'cls': 'bdiagop', 'cont': cont,
+                                'parts': [dt_gen_to(rng, dts, r, t, leaf=True) for r, t in ((r1, t1), (r2, t2))]})
+            return out
+        r, t = (fx['r'], rt(fx['d'], fx['md'])) if fx else (rng.randint(1, 3), rng.choice(dts))
+        out = [dt_gen_to(rng, dts, r, t) for _ in range(arity)]
+    elif kind == 'col':
+        if fx is None and rng.random() < 0.25:
+            # a PYTREE shared input [(c1, d1), (c2, d2)]: every block is a block row / block diagonal of two dense blocks
+            (c1, d1), (c2, d2) = [(rng.randint(1, 2), rng.choice(dts)) for _ in range(2)]
+            cont = rng.choice(['list', 'tuple', 'dict'])
+            out = []
+            for _ in range(arity):
+                if rng.random() < 0.5:
+                    t = rng.choice([x for x in dts if rt(x, d1) == x and rt(x, d2) == x])
+                    r = rng.randint(1, 2)
+                    parts = [{'k': 'dense', 'd': d, 'md': rng.choice([m for m in dts if rt(d, m) == t]), 'r': r, 'c': c,
+                              'seed': rng.randrange(10 ** 6)} for c, d in ((c1, d1), (c2, d2))]
+                    out.append({'k': 'blk', 'cls': 'row', 'cont': cont, 'parts': parts})
+                else:
+                    out.append({'k': 'blk', 'cls': 'bdiagop', 'cont': cont,
+                                'parts': [dt_gen_from(rng, dts, c, d, leaf=True) for c, d in ((c1, d1), (c2, d2))]})
+            return out
+        c, d = (fx['c'], fx['d']) if fx else (rng.randint(1, 3), rng.choice(dts))
+        out = [dt_gen_from(rng, dts, c, d) for _ in range(arity)]
+    else:
+        out = []
+        for _ in range(arity):
+            if rng.random() < 0.5:
+                out.append(dt_gen_to(rng, dts, rng.randint(1, 3), rng.choice(dts)))
+            else:
+                out.append(dt_gen_from(rng, dts, rng.randint(1, 3), rng.choice(dts)))
+            if rng.random() < 0.2:
+                out[-1] = {'k': 'blk', 'cls': 'bdiagop', 'cont': rng.choice(['list', 'tuple', 'dict']),
+                           'parts': [dt_gen_to(rng, dts, rng.randint(1, 2), rng.choice(dts), leaf=True) for _ in range(2)]}
+    if fx:
+        out[pos] = fx
+    return out
+
+
+def dt_flat(y) -> np.ndarray:
+    return np.concatenate([np.asarray(l).astype(np.complex128).ravel() for l in A.J()['jax'].tree.leaves(y)])
+
+
+def dt_dtypes(y):
+    return [str(np.dtype(l.dtype)) for l in A.J()['jax'].tree.leaves(y)]
+
+
+def dt_rand_input(struct, r):
+    """(pytree of Gaussian-integer arrays matching `struct` - complex where the leaf is complex -, the flat complex128 vector)."""
+    j = A.J()
+    leaves, td = j['jax'].tree.flatten(struct)
+    xs = []
+    for l in leaves:
+        n = int(np.prod(l.shape))
+        v = np.array([r.randint(-3, 3) for _ in range(n)], dtype=np.complex128)
+        if np.dtype(l.dtype).kind == 'c':
+            v = v + 1j * np.array([r.randint(-3, 3) for _ in range(n)])
+        xs.append(v)
+    x = j['jax'].tree.unflatten(td, [j['jnp'].asarray((v if np.dtype(l.dtype).kind == 'c' else v.real).astype(np.dtype(l.dtype))
+                                                       .reshape(l.shape)) for v, l in zip(xs, leaves)])
+    return x, (np.concatenate(xs) if xs else np.zeros(0, np.complex128))
+
+
+def cmat(m):
+    """complex matrix -> JSON [[re, im], ...] rows (floats; exact dyadic values in the cases of this stream)."""
+    m = np.asarray(m).astype(np.complex128)
+    return [[[float(v.real), float(v.imag)] for v in row] for row in m.reshape(m.shape[0], -1)] if m.ndim == 2 else \
+        [[float(v.real), float(v.imag)] for v in m.ravel()]
+
+
+def _num(x) -> float:
+    return float(Fraction(x)) if isinstance(x, str) else float(x)
+
+
+def cmat_close(a, b, tol) -> bool:
+    """JSON complex matrices / vectors (possibly canonicalised by lib.canon) equal within tol * max(1, |entry|)."""
+    if a is None or b is None or len(a) != len(b):
+        return False
+    for ra, rb in zip(a, b):
+        if isinstance(ra[0], list) or isinstance(rb[0], list):
+            if not cmat_close(ra, rb, tol):
+                return False
+        else:
+            za, zb = complex(_num(ra[0]), _num(ra[1])), complex(_num(rb[0]), _num(rb[1]))
+            if not abs(za - zb) <= tol * max(1.0, abs(za), abs(zb)):
+                return False
+    return True
+
+
 class Check(PropertyCheck):
     id = 'C10'
     props = ['C10.v']
@@ -534,6 +903,11 @@ class Check(PropertyCheck):
         'the library); elsewhere the results of .I / .T.I / .I.T / .I.I are evaluated from their structure - harness side: '
         'numpy.linalg.inv / transposes of the matrices of the objects they hold, model side: Model/Inverse.v imat (certified '
         'Gauss-Jordan inverse) - and through their own as_matrix() override (C06 covers the action of the solver)',
+        'dtype stream (dtype-changing / mixed-dtype blocks, float16 ... complex128): implementation-side oracle only, against '
+        'NumPy stacking (complex128) of the matrices the blocks were built from and numpy.result_type (equal to the JAX '
+        'promotion on the floating / complex dtypes used); the Coq model is over exact rationals and is not compared on '
+        'these cases; DiagonalOperator / HomothetyOperator blocks are used only with parameters not wider than the data '
+        '(with wider ones their own declared output dtype differs from what their mv returns - a block-level matter outside C10)',
         'the expected matrix of a sequence of .T / .I is computed by NumPy (transpose, numpy.linalg.inv in float64) on the '
         'matrices of the blocks measured by basis vectors, rounded to rationals as above',
     ]
@@ -675,8 +1049,11 @@ class Check(PropertyCheck):
             # always keep the pairs whose containers differ as trees although the structures match (no rule may fire)
             tree = A.J()['jax'].tree.structure
             diff = [p for p in compat if tree(env[p[0]].blocks, is_leaf=is_op) != tree(env[p[1]].blocks, is_leaf=is_op)]
+            # ... and the pairs of arity-one operators with equal containers (a rule fires on a single product)
+            one = [p for p in compat if p not in diff and all(len(env[n].block_leaves) == 1 for n in p)]
             rng.shuffle(compat)
-            compat = sorted(set(compat[:150]) | set(diff))
+            compat = sorted(set(compat[:150]) | set(diff) | set(one))
+            self.stats['arity_one_rule_pairs'] = len(one)
             self.stats['different_treedef_pairs'] = len(diff)
         for a, b in compat:
             out.append({'kind': 'product', 'a': a, 'b': b})
@@ -684,6 +1061,41 @@ class Check(PropertyCheck):
             out.append({'kind': 'product-mismatch', 'a': a, 'b': b})
         self.stats['block_operators'] = len(blockops)
         self.stats['compatible_pairs'] = len(compat)
+        out += self.dtype_cases(quick)
+        return out
+
+    def dtype_cases(self, quick):
+        """7. DTYPE-CHANGING blocks (own random stream: the cases above do not depend on it).  Systematic part: every
+        ordered pair (data dtype, matrix dtype) - widening, narrowing, equal, and 'both narrower than the result'
+        (complex64 data, float64 matrix) - as a dense or user-defined block at a random position of the bare and of a
+        multi-block container of each of the three block operators, among random conforming companions; random part:
+        every block operator x every container shape with independently drawn blocks (dense, user-defined, composition,
+        diagonal, scalar, identity, nested block row / column / diagonal blocks with pytree inputs or outputs)."""
+        rng = random.Random(f'{self.seed}-dtype')
+        out = []
+        multi = [sh for sh, (arity, _) in SHAPES.items() if arity > 1]
+
+        def add(kind, shape, specs, x64):
+            arity, mk = SHAPES[shape]
+            out.append({'kind': 'dtype', 'block': kind, 'shape': shape, 'x64': x64,
+                        'container': mk([f'b{i}' for i in range(arity)]), 'blocks': specs, 'xseed': rng.randrange(10 ** 6)})
+
+        for x64 in (False, True):
+            dts = DT32 + DT64 if x64 else DT32
+            for kind in KIND:
+                for d in dts:
+                    for md in dts:
+                        if x64 and d in DT32 and md in DT32:
+                            continue       # the same pair without x64 is in the other half
+                        shapes = ['bare', rng.choice(multi)] if quick else list(SHAPES)
+                        for shape in shapes:
+                            arity = SHAPES[shape][0]
+                            fx = {'k': rng.choice(['dense', 'dense', 'user']), 'd': d, 'md': md, 'r': rng.randint(1, 3),
+                                  'c': rng.randint(1, 3), 'seed': rng.randrange(10 ** 6)}
+                            add(kind, shape, dt_gen_blocks(rng, dts, kind, arity, fixed=(rng.randrange(arity), fx)), x64)
+                for shape in SHAPES:
+                    for _ in range(1 if quick else 12):
+                        add(kind, shape, dt_gen_blocks(rng, dts, kind, SHAPES[shape][0]), x64)
         return out
 
     _typed_cache: dict = {}
@@ -725,7 +1137,15 @@ class Check(PropertyCheck):
             'at a random position of the bare, one single-block and one or two multi-block containers (all nine in the '
             'thorough tier) of every block class that admits it; every operator goes through .T, .T.T and (block-diagonal, '
             'square blocks) .I, .T.I, .I.T, .I.I, .T.I.T with the result compared block by block and as a dense matrix with '
-            'NumPy transposes / inverses of the blocks\' matrices. Non-trivial: constructor refusal, arity one, nested or dict '
+            'NumPy transposes / inverses of the blocks\' matrices. Mismatch cases: construction and later use (structures, mv, '
+            'reduce, as_matrix, .T) observed separately, refusal required AT construction. Dtype stream (~200 quick cases, '
+            'implementation-side): every ordered pair (data dtype, matrix dtype) over float16/float32/complex64 and, under '
+            'x64, float64/complex128 as a dense or user-defined block at a random position of the bare and one multi-block '
+            'container of each block operator among conforming companions (compositions, diagonal, scalar, identity, nested '
+            'block operators, pytree shared sides), plus one independent draw per operator x container x {x64, not}: '
+            'structures, as_matrix() values and dtype, mv matrix, mv on a Gaussian-integer input, .T, reduce() against NumPy '
+            'stacking in complex128 / numpy.result_type. Products: also all pairs of arity-one operators with equal '
+            'containers. Non-trivial: constructor refusal, arity one, nested or dict '
             'container, pytree-valued or wrapper block, or a product rewritten by a block rule.'
         )
 
@@ -740,7 +1160,122 @@ class Check(PropertyCheck):
     def run_impl(self, case):
         if case['kind'] in ('single', 'mismatch'):
             return self.run_single(case)
+        if case['kind'] == 'dtype':
+            return self.run_dtype(case)
         return self.run_product(case)
+
+    def run_dtype(self, case):
+        import contextlib
+        import warnings
+
+        j = A.J()
+        jax, jnp = j['jax'], j['jnp']
+        kind = case['block']
+        with (jax.enable_x64(True) if case['x64'] else contextlib.nullcontext()), warnings.catch_warnings():
+            warnings.simplefilter('ignore')
+            built = {f'b{i}': dt_build(sp) for i, sp in enumerate(case['blocks'])}
+            cont = case['container']
+            order = [built[n] for n in leaf_order(cont)]
+            ref = _stack(kind, [b[1] for b in order]).astype(np.complex128)
+            want_dt = rt(*[b[2] for b in order])
+            want_in = order[0][3] if kind == 'col' else cont_desc(cont, {n: b[3] for n, b in built.items()})
+            want_out = order[0][4] if kind == 'row' else cont_desc(cont, {n: b[4] for n, b in built.items()})
+            obs = {'ref': cmat(ref), 'want_dtype': want_dt, 'want_in': want_in, 'want_out': want_out,
+                   'block_dtypes': [b[2] for b in order]}
+            blocks = A.container(cont, {n: b[0] for n, b in built.items()})
+            try:
+                op = getattr(j['blocks'], KIND[kind][0])(blocks)
+            except Exception as e:
+                obs['ctor'] = f'raised {_exc(e)}'
+                return obs
+            obs['ctor'] = 'ok'
+
+            def attempt(name, f):
+                try:
+                    obs[name] = f()
+                except Exception as e:
+                    obs[name] = {'err': _exc(e)}
+
+            def asmat(o):
+                m = o.as_matrix()
+                return {'dtype': str(np.dtype(m.dtype)), 'val': cmat(np.asarray(m))}
+
+            attempt('in', lambda: desc_of(op.in_structure()))
+            attempt('out', lambda: desc_of(op.out_structure()))
+            attempt('asmat', lambda: asmat(op))
+
+            def mvmat():
+                # the matrix of the operator's own action, one basis vector (in the dtype of its leaf) at a time
+                cols, first = [], None
+                for x in A.basis_inputs(op.in_structure()):
+                    y = op.mv(x)
+                    first = y if first is None else first
+                    cols.append(np.concatenate([np.asarray(l).astype(np.complex128).ravel() for l in jax.tree.leaves(y)]))
+                return {'val': cmat(np.stack(cols, axis=1)), 'value': desc_of(first)}
+
+            attempt('mvmat', mvmat)
+
+            def mvx():
+                # one Gaussian-integer input (complex where the leaf is complex)
+                x, xv = dt_rand_input(op.in_structure(), random.Random(case['xseed']))
+                return {'x': cmat(xv), 'y': cmat(dt_flat(op.mv(x))), 'want': cmat(ref @ xv)}
+
+            attempt('mvx', mvx)
+
+            def transposed():
+                # .T against the blocks' own transposes (each taken ALONE, never through the block operator)
+                tkind = {'row': 'col', 'col': 'row', 'bdiagop': 'bdiagop'}[kind]
+                names = leaf_order(cont)
+                try:
+                    alone = [b[0].T for b in order]
+                    shared = [] if tkind == 'bdiagop' else [
+                        desc_of(t.out_structure() if tkind == 'row' else t.in_structure()) for t in alone]
+                except Exception as e:
+                    return {'skipped': f'a block alone cannot be transposed: {_exc(e)}'}
+                if any(sh != shared[0] for sh in shared):
+                    # the transposed blocks (a transposed dtype-changing block does not return to the dtype of its input)
+                    # do not share a structure: their block row / column must be refused
+                    try:
+                        return {'unshared': shared, 'outcome': f'returned a {type(op.T).__name__}'}
+                    except Exception as e:
+                        return {'unshared': shared, 'outcome': type(e).__name__}
+                t = op.T
+                res = {'cls': type(t).__name__}
+                r = random.Random(case['xseed'] + 1)
+                if tkind == 'col':
+                    y, _ = dt_rand_input(alone[0].in_structure(), r)
+                    outs = [a.mv(y) for a in alone]
+                    want, wdt = np.concatenate([dt_flat(o) for o in outs]), [dt_dtypes(o) for o in outs]
+                else:
+                    ys = [dt_rand_input(a.in_structure(), r)[0] for a in alone]
+                    y = A.container(cont, dict(zip(names, ys)))
+                    outs = [a.mv(yb) for a, yb in zip(alone, ys)]
+                    if tkind == 'row':
+                        want = sum(dt_flat(o) for o in outs)
+                        wdt = [[rt(*ds) for ds in zip(*[dt_dtypes(o) for o in outs])]]
+                    else:
+                        want, wdt = np.concatenate([dt_flat(o) for o in outs]), [dt_dtypes(o) for o in outs]
+                got = t.mv(y)
+                res.update({'y': cmat(dt_flat(y)), 'got': cmat(dt_flat(got)), 'got_dtypes': dt_dtypes(got), 'want': cmat(want),
+                            'want_dtypes': [d for ds in wdt for d in ds]})
+                if case['xseed'] % 4 == 0:
+                    # (a quarter of the cases: the generic as_matrix of every block is compiled anew each time)
+                    mats = [np.asarray(a.as_matrix()) for a in alone]
+                    res['asmat'] = asmat(t)
+                    res['want_asmat'] = {'dtype': rt(*[str(m.dtype) for m in mats]), 'val': cmat(_stack(tkind, mats))}
+                return res
+
+            attempt('T', transposed)
+
+            def reduced():
+                red = op.reduce()
+                x, xv = dt_rand_input(op.in_structure(), random.Random(case['xseed'] + 2))
+                y = red.mv(x)
+                return {'cls': type(red).__name__, 'in': desc_of(red.in_structure()), 'out': desc_of(red.out_structure()),
+                        'x': cmat(xv), 'y': cmat(dt_flat(y)), 'value': desc_of(y), 'want': cmat(ref @ xv)}
+
+            attempt('reduce', reduced)
+        return obs
 
     def run_single(self, case):
         j = A.J()
@@ -753,12 +1288,18 @@ class Check(PropertyCheck):
         terms = [enc.term(b) for b in leaves]
         td = enc.treedef(blocks)
         obs = {}
-        ctor = A.observe_impl(lambda: cls(blocks), enc)
+        ctor = observe(lambda: cls(blocks), enc)
         op = ctor.pop('_op', None)
         obs['ctor'] = ctor
         if case['kind'] == 'mismatch':
             # the harness's own (independent) view of the shared structures, dict keys included
             obs['shared'] = sorted({G.key(b.out_structure() if kind == 'row' else b.in_structure()) for b in leaves})
+            # CONSTRUCTION and LATER USE observed separately: the clause is "refused at construction"
+            obs['construction'] = f'raised {ctor["err"]}' if op is None else 'returned an operator'
+            if op is not None:
+                obs['later'] = later_use(kind, op, blocks, leaves, case['xseed'])
+        if 'late_error' in ctor:
+            op = None        # (single) reported by the oracle: structures of a constructed operator cannot be obtained
         case['_l'] = clist(terms, str)
         case['_td'] = td
         case['_x'] = None
@@ -791,8 +1332,8 @@ class Check(PropertyCheck):
                 obs['mv'] = None
                 obs['mv_error'] = f'{type(e).__name__}: {str(e)[:200]}'
             obs['mv_ref'] = [A.frac_json(A.to_frac(v)) for v in ref @ A.flat(x)]
-            tobs = A.observe_impl(lambda: op.T, enc, want_matrix=False)
-            if '_op' in tobs:
+            tobs = observe(lambda: op.T, enc, want_matrix=False)
+            if '_op' in tobs and 'err' not in tobs:
                 tobs['keys'] = {'in': G.key(tobs['_op'].in_structure()), 'out': G.key(tobs['_op'].out_structure())}
                 # the transpose of an iterative solver cannot be applied (unsupported by the library): its matrix is
                 # then only evaluated from its structure (obs['seq']['T'])
@@ -806,9 +1347,9 @@ class Check(PropertyCheck):
             obs['T'] = strip(tobs)
             closed = closed_inverse(case)
             with A.quiet_config():
-                inv = A.observe_impl(lambda: op.I, enc, want_matrix=closed)
+                inv = observe(lambda: op.I, enc, want_matrix=closed)
                 iop = inv.pop('_op', None)
-                if iop is not None and kind == 'bdiagop' and isinstance(iop, j['blocks'].BlockDiagonalOperator):
+                if iop is not None and 'err' not in inv and kind == 'bdiagop' and isinstance(iop, j['blocks'].BlockDiagonalOperator):
                     inv['blockwise'] = [A.skeleton(b.I, enc) for b in leaves]
             inv['squares'] = [bool(b.in_structure() == b.out_structure()) for b in leaves]
             inv['square'] = bool(op.in_structure() == op.out_structure())
@@ -818,7 +1359,7 @@ class Check(PropertyCheck):
             except Exception as e:
                 obs['asmat'] = None
                 obs['asmat_error'] = f'{type(e).__name__}: {str(e)[:200]}'
-            obs['reduce'] = strip(A.observe_impl(lambda: op.reduce(), enc))
+            obs['reduce'] = strip(observe(lambda: op.reduce(), enc))
             # sequences of .T / .I: structure, block-by-block skeleton and dense matrix against NumPy on the blocks' matrices
             seqs = SEQS_SQUARE if kind == 'bdiagop' and all(inv['squares']) else SEQS_OTHER
             ms = [A.reference_matrix(b) for b in leaves]
@@ -831,9 +1372,9 @@ class Check(PropertyCheck):
         return obs
 
     def run_seq(self, kind, op, leaves, ms, seq, enc, asmat=False):
-        o = A.observe_impl(lambda: apply_seq(op, seq), enc, want_matrix=False)
+        o = observe(lambda: apply_seq(op, seq), enc, want_matrix=False)
         res = o.pop('_op', None)
-        if res is None:
+        if res is None or 'err' in o:
             return o
         blocks = A.J()['blocks']
         o['keys'] = {'in': G.key(res.in_structure()), 'out': G.key(res.out_structure())}
@@ -873,11 +1414,13 @@ class Check(PropertyCheck):
         a, b = env[case['a']], env[case['b']]
         ta, tb = enc.term(a), enc.term(b)
         obs = {}
-        prod = A.observe_impl(lambda: a @ b, enc)
+        prod = observe(lambda: a @ b, enc)
         p = prod.pop('_op', None)
+        if 'err' in prod:
+            p = None
         obs['product'] = prod
         if p is not None:
-            obs['reduced'] = strip(A.observe_impl(lambda: p.reduce(), enc))
+            obs['reduced'] = strip(observe(lambda: p.reduce(), enc))
             obs['ref'] = A.mat_json(A.frac_matrix(A.reference_matrix(a) @ A.reference_matrix(b)))
             obs['same_treedef'] = bool(
                 A.J()['jax'].tree.structure(a.blocks, is_leaf=is_op) == A.J()['jax'].tree.structure(b.blocks, is_leaf=is_op)
@@ -964,7 +1507,7 @@ class Check(PropertyCheck):
     def nontrivial(self, case, obs):
         if not isinstance(obs, dict):
             return False
-        if case['kind'] == 'mismatch' or case['kind'] == 'product-mismatch':
+        if case['kind'] in ('mismatch', 'product-mismatch', 'dtype'):
             return True
         if case['kind'] == 'single':
             return case['shape'] != 'list2' or any(n in ('BR', 'BRw', 'BC', 'BCt', 'BD') or n in WRAPPERS for n in case['names'])
@@ -979,11 +1522,18 @@ class Check(PropertyCheck):
             return None
         if case['kind'] == 'mismatch':
             if obs['ctor'].get('err') != 'ValueError':
-                return (f'blocks with mismatching shared structures {obs.get("shared")} were not refused with ValueError: '
-                        f'{obs["ctor"].get("err") or obs["ctor"].get("skel")}')
+                side = 'output' if case['block'] == 'row' else 'input'
+                if obs.get('construction') == 'returned an operator':
+                    return (f'blocks with mismatching shared ({side}) structures {obs.get("shared")} were NOT REFUSED AT '
+                            f'CONSTRUCTION: {KIND[case["block"]][0]}(blocks) returned an operator; used afterwards: '
+                            f'{obs.get("later")}')
+                return (f'blocks with mismatching shared ({side}) structures {obs.get("shared")} were not refused with '
+                        f'ValueError at construction: {obs.get("construction")}')
             return None
         if case['kind'] == 'single':
             return self.oracle_single(case, obs)
+        if case['kind'] == 'dtype':
+            return self.oracle_dtype(case, obs)
         if case['kind'] == 'product-mismatch':
             if obs['product'].get('err') != 'ValueError':
                 return f'incompatible block operators were multiplied: {obs["product"].get("err") or obs["product"].get("skel")}'
@@ -1009,6 +1559,8 @@ class Check(PropertyCheck):
     def oracle_single(self, case, obs):
         kind = case['block']
         c = obs['ctor']
+        if 'late_error' in c:
+            return f'blocks with matching structures: the operator was {c["late_error"]}'
         if 'err' in c:
             return f'blocks with matching structures were refused: {c["err"]}'
         ref = obs['ref']
@@ -1072,6 +1624,70 @@ class Check(PropertyCheck):
             msg = self.oracle_seq(kind, q, o, c, k)
             if msg:
                 return msg
+        return None
+
+    def oracle_dtype(self, case, obs):
+        """Blocks of mixed / dtype-changing dtypes: the block operator's structures, as_matrix() (values AND dtype), its
+        action on basis vectors and on a Gaussian-integer input, .T and reduce() against the NumPy stacked matrix of the
+        matrices the blocks were built from (complex128) and numpy.result_type of the blocks' matrix dtypes."""
+        name = KIND[case['block']][0]
+        stacked = {'row': 'horizontally stacked', 'col': 'vertically stacked', 'bdiagop': 'block-diagonal'}[case['block']]
+        if obs['ctor'] != 'ok':
+            return f'{name} of blocks with matching structures (mixed dtypes) {obs["ctor"]}'
+        for side in ('in', 'out'):
+            if obs[side] != obs['want_' + side]:
+                return f'declared {side}put structure {obs[side]} is not that of the blocks {obs["want_" + side]}'
+        E, ref = obs['want_dtype'], obs['ref']
+        tol = 8 * DT_EPS[E]
+        am = obs['asmat']
+        if 'err' in am:
+            return f'as_matrix() failed: {am["err"]}'
+        if not cmat_close(am['val'], ref, tol):
+            return (f'as_matrix() (dtype {am["dtype"]}) {am["val"]} is not the {stacked} matrix {ref} of the blocks '
+                    f'(block matrix dtypes {obs["block_dtypes"]})')
+        if am['dtype'] != E:
+            return f'as_matrix() has dtype {am["dtype"]}, the {stacked} matrix of blocks of dtypes {obs["block_dtypes"]} has dtype {E}'
+        mm = obs['mvmat']
+        if 'err' in mm:
+            return f'mv failed on a basis vector of the declared input structure: {mm["err"]}'
+        if not cmat_close(mm['val'], ref, 8 * tol):
+            return f'mv on the basis vectors gives the matrix {mm["val"]}, not the {stacked} matrix {ref} of the blocks'
+        if mm['value'] != obs['out']:
+            return f'mv returned a value of structure {mm["value"]}, declared {obs["out"]}'
+        mx = obs['mvx']
+        if 'err' in mx:
+            return f'mv failed on an input of the declared structure: {mx["err"]}'
+        if not cmat_close(mx['y'], mx['want'], 64 * tol):
+            return f'mv({mx["x"]}) = {mx["y"]}, the {stacked} matrix of the blocks gives {mx["want"]}'
+        t = obs['T']
+        if 'err' in t:
+            return f'.T failed: {t["err"]}'
+        if 'unshared' in t:
+            if t['outcome'] != 'ValueError':
+                return (f'.T: the transposed blocks have mismatching shared structures {t["unshared"]} but their block '
+                        f'operator was not refused with ValueError: {t["outcome"]}')
+        elif 'skipped' not in t:
+            if t['cls'] != TKIND[case['block']]:
+                return f'.T is a {t["cls"]}, expected {TKIND[case["block"]]}'
+            ttol = 64 * DT_EPS[rt(*t['want_dtypes'])]
+            if not cmat_close(t['got'], t['want'], ttol):
+                return f'.T.mv({t["y"]}) = {t["got"]}, the blocks\' own transposes applied one by one give {t["want"]}'
+            if t['got_dtypes'] != t['want_dtypes']:
+                return f'.T.mv returned leaves of dtypes {t["got_dtypes"]}, the blocks\' own transposes give {t["want_dtypes"]}'
+            if 'asmat' in t:
+                w = t['want_asmat']
+                if not cmat_close(t['asmat']['val'], w['val'], 8 * DT_EPS[w['dtype']]) or t['asmat']['dtype'] != w['dtype']:
+                    return (f'.T.as_matrix() (dtype {t["asmat"]["dtype"]}) {t["asmat"]["val"]} is not the stacked matrix of the '
+                            f'blocks\' own transposes (dtype {w["dtype"]}) {w["val"]}')
+        r = obs['reduce']
+        if 'err' in r:
+            return f'reduce() / its action failed: {r["err"]}'
+        if r['in'] != obs['in'] or r['out'] != obs['out']:
+            return f'structures changed by reduce(): {r["in"]} -> {r["out"]}'
+        if not cmat_close(r['y'], r['want'], 64 * tol):
+            return f'reduce().mv({r["x"]}) = {r["y"]}, the {stacked} matrix of the blocks gives {r["want"]}'
+        if r['value'] != obs['out']:
+            return f'reduce().mv returned a value of structure {r["value"]}, declared {obs["out"]}'
         return None
 
     def oracle_seq(self, kind, q, o, c, k):
